@@ -208,7 +208,7 @@ def gadget_guards(ctx, rule="R-C05.G.gadget"):
     try:
         f = ctx.fn(rule, name="gadget_eval_poly_check", id_re=r"^flp::gadgets::gadget_eval_poly_check$")
         ctx.require_try_call(rule, f, Call("gadget_eval_check", Any(), Len(Arg(3))), desc="gadget_eval_check(gadget, inp.len())")
-        ctx.require_guard(rule, f, "Ne", Len(Elem(Arg(3), allow=("skip",))), Len(Index(Arg(3), Lit(0))),
+        ctx.require_guard(rule, f, "Ne", Len(Elem(Arg(3), allow=("skip",), g=ctx.guards(f))), Len(Index(Arg(3), Lit(0))),
                           every_iteration=True, desc="len(inp[i]) != len(inp[0])  [every wire]")
         ctx.require_guard(rule, f, "Ne", Len(Arg(2)),
                           Call("next_power_of_two", Call("gadget_poly_len", Call("degree"), Len(Index(Arg(3), Lit(0))))),
